@@ -1,0 +1,72 @@
+//go:build verif
+
+// Contracts checked by /verif/govc (comment-only file; adds no code).
+
+package signer
+
+// ---- C18: nothing a plugin returns is passed on unchecked ----
+
+//@ pure func descEqual(a ocispec.Descriptor, b ocispec.Descriptor) bool = a.Size == b.Size && a.Digest == b.Digest && a.MediaType == b.MediaType
+//@ pure func annotationsKept(a ocispec.Descriptor, b ocispec.Descriptor) bool = forallkeys(k, a.Annotations, has(b.Annotations, k) && a.Annotations[k] == b.Annotations[k])
+
+//@ func isDescriptorSubset
+//@ props C18
+//@ ensures[C18.subset] result == (descEqual(original, newDesc) && annotationsKept(original, newDesc))
+//@ loop 1 invariant forall(k, string, visited(k) ==> has(newDesc.Annotations, k) && original.Annotations[k] == newDesc.Annotations[k])
+
+//@ func isPayloadDescriptorValid
+//@ props C18
+//@ ensures[C18.subset] result == (descEqual(originalDesc, newDesc) && annotationsKept(originalDesc, newDesc))
+
+//@ func getKeySet
+//@ props C18
+//@ ensures[C18.keyset] len(result) == len(inputMap)
+//@ ensures fresh(result)
+//@ loop 1 invariant len(keySet) == cardvisited()
+//@ loop 1 invariant fresh(keySet) && (newsince(keySet) || sameobj(keySet, loopentry(keySet)))
+//@ loop 1 modifies elems(keySet)
+
+//@ func areUnknownAttributesAdded
+//@ props C18 C12
+//@ ensures true
+
+//@ func parseCertChain
+//@ props C18
+//@ ensures[C18.certs] result1 == nil ==> len(result) == len(certChain) && forall(i, 0, len(result), result[i] != nil && isCertOf(result[i], string(certChain[i])))
+//@ ensures result1 != nil ==> result == nil
+//@ loop 1 invariant len(certs) == len(certChain) && fresh(certs) && forall(i, 0, rangeindex+1, certs[i] != nil && isCertOf(certs[i], string(certChain[i])))
+//@ loop 1 modifies elems(certs)
+
+//@ func (*pluginPrimitiveSigner).Sign
+//@ props C18
+//@ dead-return from plugin/proto.HashAlgorithmFromKeySpec
+//@ requires s != nil && s.plugin != nil
+//@ ensures-local[C18.raw-keyid] result2 == nil ==> resp != nil && resp.KeyID == s.keyID && supportedKS(s.keySpec) && req.KeyID == s.keyID && req.KeySpec == encKS(s.keySpec) && req.Hash == hashOfKS(s.keySpec) && req.Payload == payload && result == resp.Signature && len(result1) == len(resp.CertificateChain)
+//@ ensures result2 != nil ==> result == nil && result1 == nil
+
+//@ func (*PluginSigner).getKeySpec
+//@ props C18
+//@ requires s != nil && s.plugin != nil
+//@ ensures-local[C18.describe-keyid] result1 == nil ==> descKeyResp != nil && descKeyResp.KeyID == s.keyID && supportedKS(result) && encKS(result) == descKeyResp.KeySpec
+//@ ensures result1 != nil ==> result == zero(signature.KeySpec)
+
+//@ func (*PluginSigner).describeKey
+//@ props C18
+//@ requires s != nil && s.plugin != nil
+//@ ensures result1 == nil ==> result != nil
+//@ ensures result1 != nil ==> result == nil
+
+//@ func (*PluginSigner).mergeConfig
+//@ props C18 C11
+//@ requires s != nil
+//@ ensures[C18.config] result != nil && fresh(result) && forall(k, string, has(result, k) == (has(s.pluginConfig, k) || has(config, k))) && forall(k, string, has(config, k) ==> result[k] == config[k]) && forall(k, string, has(s.pluginConfig, k) && !has(config, k) ==> result[k] == s.pluginConfig[k])
+//@ loop 1 invariant forall(k, string, has(c, k) == (visited(k) && has(s.pluginConfig, k))) && forall(k, string, visited(k) ==> c[k] == s.pluginConfig[k])
+//@ loop 2 invariant forall(k, string, has(c, k) == (has(s.pluginConfig, k) || (visited(k) && has(config, k)))) && forall(k, string, visited(k) && has(config, k) ==> c[k] == config[k]) && forall(k, string, has(s.pluginConfig, k) && !(visited(k) && has(config, k)) ==> c[k] == s.pluginConfig[k])
+
+//@ func (*PluginSigner).generateSignatureEnvelope
+//@ props C18
+//@ requires s != nil && s.plugin != nil && opts.ExpiryDuration >= 0
+//@ modifies s.manifestAnnotations
+//@ ensures-local[C18.envelope-checked] result2 == nil ==> resp != nil && resp.SignatureEnvelopeType == opts.SignatureMediaType && verifiedContent(envContent, string(resp.SignatureEnvelope), opts.SignatureMediaType) && envContent.Payload.ContentType == envelope.MediaTypePayloadV1 && signedPayload == decPayload(string(envContent.Payload.Content)) && descEqual(desc, signedPayload.TargetArtifact) && annotationsKept(desc, signedPayload.TargetArtifact) && result == resp.SignatureEnvelope && result1 == &envContent.SignerInfo
+//@ ensures-local[C18.request] result2 == nil ==> req.KeyID == s.keyID && req.SignatureEnvelopeType == opts.SignatureMediaType && req.PayloadType == envelope.MediaTypePayloadV1 && string(req.Payload) == jsonEnc(box(payload)) && descEqual(payload.TargetArtifact, desc) && payload.TargetArtifact.Annotations == desc.Annotations
+//@ ensures result2 != nil ==> result == nil && result1 == nil
